@@ -360,7 +360,7 @@ def arch_block(ctx, families=None, mean_units=None):
         s = StochAst(D(lt.sym, lt.id), D(rt.sym, rt.id), u, [], _dist_for(ctx, u, mean_units, families=families))
         els.append(s)
         if b < nb - 1:
-            mode = r.choice(["none", "implicit", "explicit"])
+            mode = r.choice(["none", "implicit", "explicit", "explicit"])
             if mode == "implicit":
                 els.append(ctx.plain())
             elif mode == "explicit":
@@ -370,7 +370,7 @@ def arch_block(ctx, families=None, mean_units=None):
                     ctx.base_id = ids[b + 1]
                 d2 = ctx.gt(weight=r.choice([0.0, 0.0, 0.0, None, 2.0, 0.5]))  # the hand-over side; its weight is irrelevant when it is the only candidate left
                 d1 = D(d1.sym, d1.id)
-                if r.random() < 0.3:
+                if r.random() < (0.6 if ctx.form == "und" else 0.2):
                     # the zero weight on the descriptor written FIRST (in the undirected form both descriptors are candidates for the incoming one)
                     d1.weight, d2.weight = 0.0, r.choice([None, 2.0, 0.5])
                 els.append(ctx.unit([d1, d2], style="ends"))
